@@ -178,16 +178,34 @@ Fixpoint remove_offending (us : list (N * user)) (ids : list (N * hres)) : list 
 
 (* the `except KeyError:` body of getUserId: every user's checkHostmask, then
    cache a unique match *)
+(* CacheDict(gen.T04.CACHE_MAX).__setitem__: `if len(self.d) >= self.max: self.d.clear()` before the write.
+   _hostmaskCache holds the hostmask -> id keys and the id -> set keys in ONE dictionary (so do the two halves of
+   _nameCache): a write that finds it full drops both kinds. *)
+Definition cache_full {A B} (c : list A) (r : list B) : bool :=
+  N.leb gen.T04.CACHE_MAX (N.of_nat (length c + length r)).
+
+(* self._hostmaskCache[s] = id;  try: self._hostmaskCache[id].add(s)  except KeyError: self._hostmaskCache[id] = set([s]) *)
+Definition hinsert (h : str) (id : N) (c : list (str * N)) (r : list (N * list str)) : list (str * N) * list (N * list str) :=
+  let '(c1, r1) := if cache_full c r then ([], []) else (c, r) in
+  let c2 := dict_set h id c1 in
+  match nget id r1 with
+  | Some l => (c2, nset id (if existsb (seq_eqb h) l then l else l ++ [h]) r1)
+  | None => if cache_full c2 r1 then ([], [(id, [h])]) else (c2, nset id [h] r1)
+  end.
+
+(* self._nameCache[s] = id;  self._nameCache[id] = s *)
+Definition ninsert (n : str) (id : N) (c : list (str * N)) (r : list (N * str)) : list (str * N) * list (N * str) :=
+  let '(c1, r1) := if cache_full c r then ([], []) else (c, r) in
+  let c2 := dict_set n id c1 in
+  if cache_full c2 r1 then ([], [(id, n)]) else (c2, nset id n r1).
+
 Definition lookup_miss (timeout now : Z) (s : st) (h : str) : st * res N :=
   let '(us, ids) := scan_users timeout now h (s_users s) in
   match ids with
   | [] => (with_users s us, Raise KeyError)
   | [(id, _)] =>
-      let rev := match nget id (s_hrev s) with
-                 | Some l => nset id (if existsb (seq_eqb h) l then l else l ++ [h]) (s_hrev s)
-                 | None => nset id [h] (s_hrev s)
-                 end in
-      (St us (dict_set h id (s_hcache s)) rev (s_ncache s) (s_nrev s) (s_next s), Ok id)
+      let '(c, rev) := hinsert h id (s_hcache s) (s_hrev s) in
+      (St us c rev (s_ncache s) (s_nrev s) (s_next s), Ok id)
   | _ =>
       let '(us', e) := remove_offending us ids in
       (with_users s us', Raise e)
@@ -209,28 +227,23 @@ Definition getUserIdByName (s : st) (name : str) : st * res N :=
   | Some id => (s, Ok id)
   | None =>
       match find_name n (s_users s) with
-      | Some id => (St (s_users s) (s_hcache s) (s_hrev s) (dict_set n id (s_ncache s)) (nset id n (s_nrev s)) (s_next s), Ok id)
+      | Some id => let '(nc, nr) := ninsert n id (s_ncache s) (s_nrev s) in
+                   (St (s_users s) (s_hcache s) (s_hrev s) nc nr (s_next s), Ok id)
       | None => (s, Raise KeyError)
       end
   end.
 
-(* invalidateCache(id): name entries, then hostmask entries; `del` of a
-   missing key raises KeyError *)
+(* invalidateCache(id) (and the same lines of delUser): the name entries, then
+   the hostmask entries; the other half of an entry is removed with
+   pop(key, None), it may have been evicted (repair of C04.F28) *)
 Definition invalidate_id (s : st) (id : N) : res st :=
-  do s1 <- (match nget id (s_nrev s) with
-            | Some n =>
-                if dict_has n (s_ncache s)
-                then Ok (St (s_users s) (s_hcache s) (s_hrev s) (sdel n (s_ncache s)) (ndel id (s_nrev s)) (s_next s))
-                else Raise KeyError
-            | None => Ok s
-            end);
+  let s1 := match nget id (s_nrev s) with
+            | Some n => St (s_users s) (s_hcache s) (s_hrev s) (sdel n (s_ncache s)) (ndel id (s_nrev s)) (s_next s)
+            | None => s
+            end in
   match nget id (s_hrev s1) with
-  | Some hs =>
-      (fix go (hs : list str) (c : list (str * N)) : res st :=
-         match hs with
-         | [] => Ok (St (s_users s1) c (ndel id (s_hrev s1)) (s_ncache s1) (s_nrev s1) (s_next s1))
-         | h :: r => if dict_has h c then go r (sdel h c) else Raise KeyError
-         end) hs (s_hcache s1)
+  | Some hs => Ok (St (s_users s1) (fold_left (fun c h => sdel h c) hs (s_hcache s1)) (ndel id (s_hrev s1))
+                      (s_ncache s1) (s_nrev s1) (s_next s1))
   | None => Ok s1
   end.
 
